@@ -22,166 +22,6 @@ theorem toPropertyDescriptor_refines (d : DescArg) :
       simp [OttoVerif.C07.toPropertyDescriptor, Spec.toPropertyDescriptor, gsSlot, gsField, setTrit, absDesc,
         topt, slotField, tset]
 
-/-! ## [[DefineOwnProperty]] (§8.12.9), one property -/
-
-/-- the single-property refinement statement -/
-def PropGoal (prop d : MProp) : Prop :=
-  devG prop d = false → devA2D prop d = false →
-   (defineProp prop d).map (fun r => absProp (r.getD prop))
-   = (sDefineProp (absProp prop) (absDesc d)).map (fun r => r.getD (absProp prop))
-
-macro "unfold_model" : tactic => `(tactic|
-  simp only [PropGoal, devG, devA2D, defineProp, defineSwitch, MProp.isEmpty, MProp.isGenericDescriptor, MProp.isDataDescriptor,
-    MProp.isAccessorDescriptor, writable_eq, writeSet_eq, enumerable_eq, enumerateSet_eq, configurable_eq, mode222_eq, mergeMode_eq])
-
-theorem fieldSame_none {α} [DecidableEq α] (c : Option α) : fieldSame none c = true := rfl
-theorem fieldSame_some_none {α} [DecidableEq α] (x : α) : fieldSame (some x) none = false := by
-  simp [fieldSame]
-theorem fieldSame_some_some {α} [DecidableEq α] (x y : α) : fieldSame (some x) (some y) = decide (y = x) := by
-  simp [fieldSame]; rfl
-
-macro "unfold_spec" : tactic => `(tactic|
-  simp only [sDefineProp, absProp, absDesc, allAbsent, subsumed, fieldSame_none, fieldSame_some_none, fieldSame_some_some, ofProp, validate, applyFields,
-     Spec.isGenericDescriptor, Spec.isDataDescriptor, Spec.isAccessorDescriptor, SProp.configurable, SProp.enumerable, SProp.isData,
-     Option.isSome, Option.isNone, Option.getD, slotField, slotFn, normSlot])
-
-macro "trits" : tactic => `(tactic|
-  (intro h1 h2 <;> first | rfl | exact Bool.noConfusion h1 | exact Bool.noConfusion h2))
-
-theorem neqForms {α} [DecidableEq α] {a b : α} (h : a ≠ b) :
-   (a != b) = true ∧ (b != a) = true ∧ (a == b) = false ∧ (b == a) = false ∧
-   decide (a = b) = false ∧ decide (b = a) = false ∧ (some a != some b) = true ∧ (some b != some a) = true := by
-  have h' : b ≠ a := fun e => h e.symm
-  simp [h, h']
-
-
-set_option maxHeartbeats 2000000 in
-theorem caseVN (pv : Val) (pw pe pc dw de dc : Trit) : PropGoal ⟨.val pv, ⟨pw,pe,pc⟩⟩ ⟨.nil, ⟨dw,de,dc⟩⟩ := by
-  unfold_model
-  unfold_spec
-  cases pw <;> cases pe <;> cases pc <;> cases dw <;> cases de <;> cases dc <;> trits
-
-set_option maxHeartbeats 4000000 in
-theorem caseVV (pv dv : Val) (pw pe pc dw de dc : Trit) : PropGoal ⟨.val pv, ⟨pw,pe,pc⟩⟩ ⟨.val dv, ⟨dw,de,dc⟩⟩ := by
-  unfold_model
-  unfold_spec
-  by_cases hv : dv = pv
-  · subst hv
-    try simp only [bne_self_eq_false, beq_self_eq_true, eq_self, decide_true]
-    cases pw <;> cases pe <;> cases pc <;> cases dw <;> cases de <;> cases dc <;> trits
-  · obtain ⟨e1, e2, e3, e4, e5, e6, e7, e8⟩ := neqForms hv
-    try simp only [e1, e2, e3, e4, e5, e6, e7, e8]
-    cases pw <;> cases pe <;> cases pc <;> cases dw <;> cases de <;> cases dc <;> trits
-
-set_option maxHeartbeats 2000000 in
-theorem caseGN (pg ps : Slot) (hg : pg ≠ .nilObj) (hs : ps ≠ .nilObj) (pe pc dw de dc : Trit) :
-    PropGoal ⟨.gs pg ps, ⟨.unset,pe,pc⟩⟩ ⟨.nil, ⟨dw,de,dc⟩⟩ := by
-  unfold_model
-  unfold_spec
-  cases pg <;> cases ps <;> first | exact absurd rfl hg | exact absurd rfl hs |
-   (cases pe <;> cases pc <;> cases dw <;> cases de <;> cases dc <;> trits)
-
-set_option maxHeartbeats 2000000 in
-theorem caseGV (pg ps : Slot) (hg : pg ≠ .nilObj) (hs : ps ≠ .nilObj) (dv : Val) (pe pc dw de dc : Trit) :
-    PropGoal ⟨.gs pg ps, ⟨.unset,pe,pc⟩⟩ ⟨.val dv, ⟨dw,de,dc⟩⟩ := by
-  unfold_model
-  unfold_spec
-  cases pg <;> cases ps <;> first | exact absurd rfl hg | exact absurd rfl hs |
-   (cases pe <;> cases pc <;> cases dw <;> cases de <;> cases dc <;> trits)
-
-set_option maxHeartbeats 4000000 in
-theorem caseVG (pv : Val) (dg ds : Slot) (hd : dg ≠ .nil ∨ ds ≠ .nil) (pw pe pc de dc : Trit) :
-    PropGoal ⟨.val pv, ⟨pw,pe,pc⟩⟩ ⟨.gs dg ds, ⟨.unset,de,dc⟩⟩ := by
-  unfold_model
-  unfold_spec
-  try simp only [bne_self_eq_false, beq_self_eq_true, eq_self, decide_true]
-  cases dg <;> cases ds <;> first | (exfalso; exact hd.elim (fun h => h rfl) (fun h => h rfl)) |
-   (cases pw <;> cases pe <;> cases pc <;> cases de <;> cases dc <;> trits)
-
-theorem slotNeq {k1 k2 : Fn} (h : k1 ≠ k2) :
-    (Slot.fn k1 != Slot.fn k2) = true ∧ (Slot.fn k2 != Slot.fn k1) = true ∧
-    (Slot.fn k1 == Slot.fn k2) = false ∧ (Slot.fn k2 == Slot.fn k1) = false ∧
-    ((some k1 : Option Fn) != some k2) = true ∧ ((some k2 : Option Fn) != some k1) = true ∧
-    decide ((some k1 : Option Fn) = some k2) = false ∧ decide ((some k2 : Option Fn) = some k1) = false := by
-  have h' : k2 ≠ k1 := fun e => h e.symm
-  simp [h, h']
-
-
-def pslot : Option Fn → Slot
-  | none => .nil
-  | some k => .fn k
-
-def dslot : Option (Option Fn) → Slot
-  | none => .nil
-  | some none => .nilObj
-  | some (some k) => .fn k
-
-set_option hygiene false in
-macro "fin4" : tactic => `(tactic|
-  ((try simp only [bne_self_eq_false, beq_self_eq_true, eq_self, decide_true]) <;>
-   cases pe <;> cases pc <;> cases de <;> cases dc <;> trits))
-
-macro "atom" h:ident : tactic => `(tactic|
-  first
-  | subst $h
-  | (obtain ⟨e1, e2, e3, e4, e5, e6, e7, e8⟩ := slotNeq $h
-     try simp only [e1, e2, e3, e4, e5, e6, e7, e8]))
-
-set_option maxHeartbeats 16000000 in
-theorem caseGG (a b : Option Fn) (x y : Option (Option Fn)) (hd : dslot x ≠ .nil ∨ dslot y ≠ .nil) (pe pc de dc : Trit) :
-    PropGoal ⟨.gs (pslot a) (pslot b), ⟨.unset,pe,pc⟩⟩ ⟨.gs (dslot x) (dslot y), ⟨.unset,de,dc⟩⟩ := by
-  rcases a with _ | k1 <;> rcases b with _ | k2 <;> rcases x with _ | _ | k3 <;> rcases y with _ | _ | k4 <;>
-    simp only [pslot, dslot] at hd ⊢ <;>
-    first
-    | (exfalso; exact hd.elim (fun h => h rfl) (fun h => h rfl))
-    | (unfold_model
-       unfold_spec
-       try simp only [reduceCtorEq, ↓reduceIte]
-       first
-       | (by_cases h13 : k1 = k3 <;> by_cases h24 : k2 = k4 <;> atom h13 <;> atom h24 <;> fin4)
-       | (by_cases h13 : k1 = k3 <;> atom h13 <;> fin4)
-       | (by_cases h24 : k2 = k4 <;> atom h24 <;> fin4)
-       | fin4)
-
-theorem pslot_slotFn {g : Slot} (h : g ≠ .nilObj) : pslot (slotFn g) = g := by
-  cases g <;> first | rfl | exact absurd rfl h
-
-theorem dslot_slotField (g : Slot) : dslot (slotField g) = g := by cases g <;> rfl
-
-/-- **[[DefineOwnProperty]] on an existing property** (object_class.go:337-441 vs §8.12.9 steps 5-13):
-    for EVERY well-formed stored property and EVERY descriptor `toPropertyDescriptor` can produce,
-    outside the two single-property deviation regions otto rejects exactly when ES5 rejects and
-    the property written has exactly the ES5 attributes. -/
-theorem defineProp_refines (prop d : MProp) (hp : WFProp prop) (hd : WFDesc d) : PropGoal prop d := by
-  obtain ⟨pval, ⟨pw, pe, pc⟩⟩ := prop
-  obtain ⟨dval, ⟨dw, de, dc⟩⟩ := d
-  cases pval with
-  | nil => exact hp.elim
-  | val pv =>
-    cases dval with
-    | nil => exact caseVN pv pw pe pc dw de dc
-    | val dv => exact caseVV pv dv pw pe pc dw de dc
-    | gs dg ds =>
-      obtain ⟨hw, hne⟩ := hd
-      simp only at hw
-      subst hw
-      exact caseVG pv dg ds hne pw pe pc de dc
-  | gs pg ps =>
-    obtain ⟨hg, hs, hw⟩ := hp
-    simp only at hw
-    subst hw
-    cases dval with
-    | nil => exact caseGN pg ps hg hs pe pc dw de dc
-    | val dv => exact caseGV pg ps hg hs dv pe pc dw de dc
-    | gs dg ds =>
-      obtain ⟨hw, hne⟩ := hd
-      simp only at hw
-      subst hw
-      have := caseGG (slotFn pg) (slotFn ps) (slotField dg) (slotField ds)
-        (by rw [dslot_slotField, dslot_slotField]; exact hne) pe pc de dc
-      rw [pslot_slotFn hg, pslot_slotFn hs, dslot_slotField, dslot_slotField] at this
-      exact this
-
 /-! ## lifting to objects -/
 
 theorem alookup_absProps (n : Name) (l : List (Name × MProp)) :
@@ -215,7 +55,47 @@ theorem aupsert_self {α} (n : Name) (x : α) (l : List (Name × α)) (h : alook
     · rename_i hk; simp [hk] at h; simp [ih h]
 
 /-- every stored property of the object is well formed -/
-def WFObj (o : MObj) : Prop := ∀ n p, alookup n o.props = some p → WFProp p
+def WFObj (o : MObj) : Prop := ∀ kp, kp ∈ o.props → WFProp kp.2
+
+theorem alookup_mem {α} {n : Name} {x : α} {l : List (Name × α)} (h : alookup n l = some x) : (n, x) ∈ l := by
+  induction l with
+  | nil => simp [alookup] at h
+  | cons kp t ih =>
+    obtain ⟨k, q⟩ := kp
+    simp only [alookup] at h
+    split at h
+    · rename_i hk; cases h; subst hk; exact List.mem_cons_self
+    · exact List.mem_cons_of_mem _ (ih h)
+
+theorem mem_aupsert {α} {n : Name} {x : α} {l : List (Name × α)} {kp : Name × α} (h : kp ∈ aupsert n x l) :
+    kp = (n, x) ∨ kp ∈ l := by
+  induction l with
+  | nil => simp [aupsert] at h; exact Or.inl h
+  | cons kq t ih =>
+    obtain ⟨k, q⟩ := kq
+    simp only [aupsert] at h
+    split at h
+    · rename_i hk
+      rcases List.mem_cons.1 h with h | h
+      · subst hk; exact Or.inl h
+      · exact Or.inr (List.mem_cons_of_mem _ h)
+    · rcases List.mem_cons.1 h with h | h
+      · exact Or.inr (h ▸ List.mem_cons_self)
+      · rcases ih h with h | h
+        · exact Or.inl h
+        · exact Or.inr (List.mem_cons_of_mem _ h)
+
+theorem mem_aerase {α} {n : Name} {l : List (Name × α)} {kp : Name × α} (h : kp ∈ aerase n l) : kp ∈ l := by
+  induction l with
+  | nil => simp [aerase] at h
+  | cons kq t ih =>
+    obtain ⟨k, q⟩ := kq
+    simp only [aerase] at h
+    split at h
+    · exact List.mem_cons_of_mem _ h
+    · rcases List.mem_cons.1 h with h | h
+      · exact h ▸ List.mem_cons_self
+      · exact List.mem_cons_of_mem _ (ih h)
 
 theorem createProp_refines (d : MProp) (hd : WFDesc d) : absProp (createProp d) = sCreateProp (absDesc d) := by
   obtain ⟨dval, ⟨dw, de, dc⟩⟩ := d
@@ -247,7 +127,7 @@ theorem defineOwnProperty_refines (o : MObj) (n : Name) (d : MProp) (ho : WFObj 
   | some prop =>
     rw [hl] at h1 h2
     simp only [Option.isSome_map] at h1 h2
-    have hg := defineProp_refines prop d (ho n prop hl) hd h1 h2
+    have hg := defineProp_refines prop d (ho _ (alookup_mem hl)) hd h1 h2
     simp only [Option.map_some]
     have hl' : alookup n (absProps props) = some (absProp prop) := by rw [alookup_absProps, hl]; rfl
     cases hm : defineProp prop d with
@@ -326,6 +206,221 @@ theorem step_defineProperty_refines (h : MHeap) (a : Addr) (n : Name) (d : DescA
         simp only [Option.map_some] at hr
         simp [← hr, absHeap, List.map_set]
 
+/-! ## more plumbing -/
+
+theorem alookup_aupsert {α} (m n : Name) (x : α) (l : List (Name × α)) :
+    alookup m (aupsert n x l) = if n = m then some x else alookup m l := by
+  induction l with
+  | nil => simp [aupsert, alookup]
+  | cons kp t ih =>
+    obtain ⟨k, q⟩ := kp
+    simp only [aupsert]
+    by_cases hk : k = n
+    · subst hk
+      simp only [if_true, alookup]
+      by_cases hm : k = m <;> simp [hm]
+    · simp only [hk, if_false, alookup, ih]
+      by_cases hm : k = m
+      · subst hm
+        have : ¬ n = k := fun e => hk e.symm
+        simp [this]
+      · simp [hm]
+
+theorem alookup_aerase {α} (m n : Name) (l : List (Name × α)) (hm : m ≠ n) :
+    alookup m (aerase n l) = alookup m l := by
+  induction l with
+  | nil => rfl
+  | cons kp t ih =>
+    obtain ⟨k, q⟩ := kp
+    simp only [aerase]
+    by_cases hk : k = n
+    · subst hk; simp [alookup, Ne.symm hm]
+    · simp only [hk, if_false, alookup, ih]
+
+theorem absProps_aerase (n : Name) (l : List (Name × MProp)) :
+    absProps (aerase n l) = aerase n (absProps l) := by
+  induction l with
+  | nil => rfl
+  | cons kp t ih =>
+    obtain ⟨k, q⟩ := kp
+    simp only [absProps, List.map, aerase] at ih ⊢
+    split <;> simp_all
+
+/-- lifting a one-property statement (for ANY spec descriptor `pd`) to the object -/
+theorem defineOwn_lift (o : MObj) (n : Name) (d : MProp) (pd : PD) (prop : MProp)
+    (hl : alookup n o.props = some prop)
+    (hg : (defineProp prop d).map (fun r => absProp (r.getD prop))
+        = (sDefineProp (absProp prop) pd).map (fun r => r.getD (absProp prop))) :
+    (defineOwn o n d).map absObj = Spec.defineOwn (absObj o) n pd := by
+  obtain ⟨proto, ext, props⟩ := o
+  rw [sDefineOwn_eq, defineOwn_eq]
+  simp only [absObj, alookup_absProps] at hl ⊢
+  rw [hl]
+  have hl' : alookup n (absProps props) = some (absProp prop) := by rw [alookup_absProps, hl]; rfl
+  simp only [Option.map_some]
+  cases hm : defineProp prop d with
+  | none =>
+    rw [hm] at hg
+    cases hs : sDefineProp (absProp prop) pd with
+    | none => rfl
+    | some r' => rw [hs] at hg; simp at hg
+  | some r =>
+    rw [hm] at hg
+    cases hs : sDefineProp (absProp prop) pd with
+    | none => rw [hs] at hg; simp at hg
+    | some r' =>
+      rw [hs] at hg
+      simp only [Option.map_some, Option.some.injEq] at hg ⊢
+      cases r with
+      | none =>
+        cases r' with
+        | none => rfl
+        | some v =>
+          simp only [Option.getD] at hg
+          subst hg
+          simp only [absObj, aupsert_self _ _ _ hl']
+      | some p =>
+        cases r' with
+        | none =>
+          simp only [Option.getD] at hg
+          simp only [absObj, absProps_aupsert, hg, aupsert_self _ _ _ hl']
+        | some v =>
+          simp only [Option.getD] at hg
+          simp only [absObj, absProps_aupsert, hg]
+
+/-- [[DefineOwnProperty]] keeps every stored property well formed, outside `acc_to_data_keeps_accessor` -/
+theorem defineOwn_wf (o o' : MObj) (n : Name) (d : MProp) (ho : WFObj o) (hd : WFDesc d)
+    (h2 : devAccToDataAt o n d = false) (h : defineOwn o n d = some o') : WFObj o' := by
+  simp only [devAccToDataAt] at h2
+  rw [defineOwn_eq] at h h2
+  cases hl : alookup n o.props with
+  | none =>
+    rw [hl] at h
+    simp only at h
+    cases he : o.ext with
+    | false => simp [he] at h
+    | true =>
+      simp only [he, Bool.not_true, Bool.false_eq_true, if_false, Option.some.injEq] at h
+      subst h
+      intro kp hkp
+      rcases mem_aupsert hkp with h | h
+      · subst h; exact createProp_wf d hd
+      · exact ho kp h
+  | some prop =>
+    rw [hl] at h h2
+    simp only [Option.isSome_map] at h h2
+    cases hm : defineProp prop d with
+    | none => rw [hm] at h; simp at h
+    | some r =>
+      rw [hm] at h
+      simp only [Option.map_some, Option.some.injEq] at h
+      subst h
+      cases r with
+      | none => exact ho
+      | some p =>
+        intro kp hkp
+        rcases mem_aupsert hkp with h | h
+        · subst h
+          refine defineProp_wf prop d p (ho _ (alookup_mem hl)) hd ?_ hm
+          rw [hm] at h2
+          simp only [devA2D, hm]
+          exact h2
+        · exact ho kp h
+
+/-! ## prototype chains: [[GetProperty]] / [[Get]] / [[HasProperty]] -/
+
+theorem absHeap_get (h : MHeap) (a : Nat) : (absHeap h)[a]? = (h[a]?).map absObj := by simp [absHeap]
+
+theorem fuel_absHeap (h : MHeap) : fuel (absHeap h) = fuel h := by simp [fuel, absHeap]
+
+/-- **[[GetProperty]] refines §8.12.2** along any prototype chain, for any fuel -/
+theorem getProperty_refines (h : MHeap) (f : Nat) (x : Option Addr) (n : Name) :
+    Spec.getProperty (absHeap h) f x n = (getProperty h f x n).map absProp := by
+  induction f generalizing x with
+  | zero => rfl
+  | succ f ih =>
+    cases x with
+    | none => rfl
+    | some a =>
+      simp only [Spec.getProperty, getProperty, absHeap_get]
+      cases h[a]? with
+      | none => rfl
+      | some o =>
+        simp only [Option.map_some, absObj, alookup_absProps]
+        cases alookup n o.props with
+        | none => exact ih o.proto
+        | some p => rfl
+
+/-- prototypes always point to strictly older objects (so chains are finite and acyclic) -/
+def ProtoOK (h : MHeap) : Prop := ∀ (a : Nat) (o : MObj) (p : Nat), h[a]? = some o → o.proto = some p → p < a
+
+/-- more fuel than the address never changes the walk -/
+theorem getProperty_fuel (h : MHeap) (hp : ProtoOK h) (n : Name) :
+    ∀ (f f' a : Nat), a < f → a < f' → getProperty h f (some a) n = getProperty h f' (some a) n := by
+  intro f
+  induction f with
+  | zero => intro f' a h1; omega
+  | succ f ih =>
+    intro f' a h1 h2
+    cases f' with
+    | zero => omega
+    | succ f' =>
+      simp only [getProperty]
+      cases ho : h[a]? with
+      | none => rfl
+      | some o =>
+        simp only []
+        cases alookup n o.props with
+        | some p => rfl
+        | none =>
+          simp only []
+          cases hpr : o.proto with
+          | none => cases f <;> cases f' <;> rfl
+          | some p =>
+            have hlt : (p : Nat) < a := hp a o p ho hpr
+            exact ih f' p (Nat.lt_of_lt_of_le hlt (Nat.le_of_lt_succ h1)) (Nat.lt_of_lt_of_le hlt (Nat.le_of_lt_succ h2))
+
+/-- the walk from an object = own property, else the walk from its prototype (with the same fuel) -/
+theorem getProperty_unfold (h : MHeap) (hp : ProtoOK h) (a : Nat) (o : MObj) (n : Name) (ho : h[a]? = some o) :
+    getProperty h (fuel h) (some a) n =
+      match alookup n o.props with
+      | some p => some p
+      | none => match o.proto with
+        | none => none
+        | some pa => getProperty h (fuel h) (some pa) n := by
+  have ha : a < h.length := by
+    rcases Nat.lt_or_ge a h.length with hlt | hge
+    · exact hlt
+    · rw [List.getElem?_eq_none hge] at ho; cases ho
+  simp only [fuel, getProperty, ho]
+  cases alookup n o.props with
+  | some p => rfl
+  | none =>
+    simp only []
+    cases hpr : o.proto with
+    | none => cases h.length <;> rfl
+    | some pa =>
+      have hlt : (pa : Nat) < a := hp a o pa ho hpr
+      have h3 : pa < h.length := Nat.lt_trans hlt ha
+      exact getProperty_fuel h hp n h.length (h.length + 1) pa h3 (Nat.lt_succ_of_lt h3)
+
+/-- **[[Get]] refines §8.12.3** (getter called with the original receiver) -/
+theorem get_refines (h : MHeap) (a : Addr) (n : Name) : Spec.get (absHeap h) a n = get h a n := by
+  simp only [Spec.get, get, getProperty_refines, fuel_absHeap]
+  cases getProperty h (fuel h) (some a) n with
+  | none => rfl
+  | some p =>
+    obtain ⟨v, m⟩ := p
+    cases v with
+    | nil => rfl
+    | val v => rfl
+    | gs g s => cases g <;> rfl
+
+/-- **[[HasProperty]] refines §8.12.6** -/
+theorem hasProperty_refines (h : MHeap) (a : Addr) (n : Name) :
+    (Spec.getProperty (absHeap h) (fuel (absHeap h)) (some a) n).isSome = (getProperty h (fuel h) (some a) n).isSome := by
+  rw [getProperty_refines, fuel_absHeap, Option.isSome_map]
+
 /-! ## Shape invariants of otto's [[DefineOwnProperty]] (hold for ALL inputs, also inside the Dev regions) -/
 
 theorem akeys_aupsert_present {α} (n : Name) (x y : α) (l : List (Name × α)) (h : alookup n l = some y) :
@@ -399,6 +494,349 @@ theorem defineOwn_nonextensible_no_growth (o o' : MObj) (n : Name) (d : MProp)
   rcases hk with hk | ⟨he, _, _⟩
   · exact hk
   · rw [hne] at he; cases he
+/-! ## step statements -/
+
+/-- the invariants carried along a history -/
+def Inv (h : MHeap) : Prop := WFHeap h ∧ ProtoOK h
+
+/-- one step: the abstraction of otto's new heap is the ES5 heap, and outcome + setter calls agree -/
+def StepRefines (h : MHeap) (op : Op) : Prop :=
+  absHeap (step h op).1 = (Spec.step (absHeap h) op).1 ∧ (step h op).2 = (Spec.step (absHeap h) op).2
+
+theorem absHeap_set (h : MHeap) (a : Nat) (o : MObj) : absHeap (h.set a o) = (absHeap h).set a (absObj o) := by
+  simp [absHeap, List.map_set]
+
+theorem inv_set (h : MHeap) (a : Nat) (o o' : MObj) (hi : Inv h) (ho : h[a]? = some o)
+    (hw : WFObj o') (hp : o'.proto = o.proto) : Inv (h.set a o') := by
+  obtain ⟨hwf, hpr⟩ := hi
+  constructor
+  · intro b q hq
+    rw [List.getElem?_set] at hq
+    split at hq
+    · split at hq
+      · cases hq; exact hw
+      · cases hq
+    · exact hwf b q hq
+  · intro b q p hq hqp
+    rw [List.getElem?_set] at hq
+    split at hq
+    · rename_i hab
+      split at hq
+      · cases hq; subst hab; rw [hp] at hqp; exact hpr a o p ho hqp
+      · cases hq
+    · exact hpr b q p hq hqp
+
+/-! ## [[Delete]] (§8.12.7) and Object.preventExtensions (§15.2.3.10) -/
+
+theorem configurable_abs (p : MProp) : (absProp p).configurable = p.configurable := by
+  obtain ⟨v, ⟨w, e, c⟩⟩ := p
+  cases v <;> simp [absProp, SProp.configurable]
+
+theorem enumerable_abs (p : MProp) : (absProp p).enumerable = p.enumerable := by
+  obtain ⟨v, ⟨w, e, c⟩⟩ := p
+  cases v <;> simp [absProp, SProp.enumerable]
+
+/-- **delete refines §8.12.7 / §11.4.1**: same result, same heap; outside `strict_ignored` also the
+    same TypeError behaviour -/
+theorem delete_refines (h : MHeap) (strict : Bool) (a : Addr) (n : Name)
+    (hdev : devStrict h (.del strict a n) = false) : StepRefines h (.del strict a n) := by
+  simp only [StepRefines, step, delete, Spec.step, Spec.delete, absHeap_get]
+  cases ho : h[a]? with
+  | none => simp
+  | some o =>
+    simp only [Option.map_some, absObj, alookup_absProps]
+    cases hl : alookup n o.props with
+    | none => simp
+    | some prop =>
+      simp only [Option.map_some, configurable_abs]
+      cases hc : prop.configurable with
+      | true => simp [absHeap_set, absObj, absProps_aerase]
+      | false =>
+        cases strict with
+        | false => simp
+        | true => simp [devStrict, ho, hl, hc] at hdev
+
+theorem delete_inv (h : MHeap) (strict : Bool) (a : Addr) (n : Name) (hi : Inv h) :
+    Inv (step h (.del strict a n)).1 := by
+  simp only [step, delete]
+  cases ho : h[a]? with
+  | none => exact hi
+  | some o =>
+    simp only []
+    cases hl : alookup n o.props with
+    | none => exact hi
+    | some prop =>
+      simp only []
+      split
+      · exact inv_set h a o _ hi ho (fun kp hkp => hi.1 a o ho kp (mem_aerase hkp)) rfl
+      · exact hi
+
+theorem preventExt_refines (h : MHeap) (a : Addr) : StepRefines h (.preventExt a) := by
+  simp only [StepRefines, step, Spec.step, absHeap_get]
+  cases ho : h[a]? with
+  | none => exact ⟨rfl, rfl⟩
+  | some o => simp [absHeap_set, absObj]
+
+theorem preventExt_inv (h : MHeap) (a : Addr) (hi : Inv h) : Inv (step h (.preventExt a)).1 := by
+  simp only [step]
+  cases ho : h[a]? with
+  | none => exact hi
+  | some o => exact inv_set h a o _ hi ho (hi.1 a o ho) rfl
+
+/-! ## [[CanPut]] / [[Put]] (§8.12.4, §8.12.5) -/
+
+/-- assignment to an own writable data property: otto redefines with the full current property
+    carrying the new value, ES5 with `{[[Value]]: V}` – same result -/
+theorem putOwn_prop (pv v : Val) (pe pc : Trit) :
+    (defineProp ⟨.val pv, ⟨.on, pe, pc⟩⟩ ⟨.val v, ⟨.on, pe, pc⟩⟩).map (fun r => absProp (r.getD ⟨.val pv, ⟨.on, pe, pc⟩⟩))
+    = (sDefineProp (absProp ⟨.val pv, ⟨.on, pe, pc⟩⟩) { noPD with value := some v }).map
+        (fun r => r.getD (absProp ⟨.val pv, ⟨.on, pe, pc⟩⟩)) := by
+  unfold_model
+  unfold_spec
+  simp only [noPD]
+  unfold_spec
+  by_cases hv : v = pv
+  · subst hv
+    try simp only [bne_self_eq_false, beq_self_eq_true, eq_self, decide_true]
+    cases pe <;> cases pc <;> rfl
+  · obtain ⟨e1, e2, e3, e4, e5, e6, e7, e8⟩ := neqForms hv
+    try simp only [e1, e2, e3, e4, e5, e6, e7, e8]
+    cases pe <;> cases pc <;> rfl
+
+theorem writable_abs_val (v : Val) (m : Mode) : (MProp.mk (.val v) m).writable = tb m.w := by
+  obtain ⟨w, e, c⟩ := m; simp
+
+/-- **[[CanPut]] refines §8.12.4** (own / inherited, data / accessor, extensible flag) -/
+theorem canPut_refines (h : MHeap) (o : MObj) (n : Name) :
+    Spec.canPut (absHeap h) (absObj o) n = (canPutDetails h o n).1 := by
+  obtain ⟨proto, ext, props⟩ := o
+  simp only [Spec.canPut, canPutDetails, absObj, alookup_absProps]
+  cases alookup n props with
+  | some prop =>
+    obtain ⟨v, ⟨w, e, c⟩⟩ := prop
+    cases v with
+    | nil => simp [absProp]
+    | val v => simp [absProp]
+    | gs g s => cases s <;> simp [absProp, slotFn]
+  | none =>
+    simp only [Option.map_none]
+    cases proto with
+    | none => rfl
+    | some pa =>
+      simp only [getProperty_refines, fuel_absHeap]
+      cases getProperty h (fuel h) (some pa) n with
+      | none => rfl
+      | some prop =>
+        obtain ⟨v, ⟨w, e, c⟩⟩ := prop
+        cases v with
+        | nil => cases ext <;> simp [absProp]
+        | val v => cases ext <;> simp [absProp]
+        | gs g s => cases s <;> simp [absProp, slotFn]
+
+theorem getProperty_own (h : MHeap) (hp : ProtoOK h) (a : Nat) (o : MObj) (n : Name) (p : MProp)
+    (ho : h[a]? = some o) (hl : alookup n o.props = some p) :
+    getProperty h (fuel h) (some a) n = some p := by
+  rw [getProperty_unfold h hp a o n ho, hl]
+
+theorem getProperty_inherit (h : MHeap) (hp : ProtoOK h) (a : Nat) (o : MObj) (n : Name)
+    (ho : h[a]? = some o) (hl : alookup n o.props = none) :
+    getProperty h (fuel h) (some a) n =
+      match o.proto with
+      | none => none
+      | some pa => getProperty h (fuel h) (some pa) n := by
+  simp only [getProperty_unfold h hp a o n ho, hl]
+  cases o.proto <;> rfl
+
+/-- the two "create a new own property" endings of [[Put]] agree (object level) -/
+theorem putNew_refines (o : MObj) (n : Name) (v : Val) (ho : WFObj o) (hl : alookup n o.props = none) :
+    (defineOwn o n ⟨.val v, ⟨.on, .on, .on⟩⟩).map absObj =
+      Spec.defineOwn (absObj o) n { noPD with value := some v, writable := some true, enumerable := some true, configurable := some true } := by
+  have := defineOwnProperty_refines o n ⟨.val v, ⟨.on, .on, .on⟩⟩ ho trivial
+    (by simp [devGenericAt, hl]) (by simp [devAccToDataAt, hl])
+  simpa [absDesc, topt, noPD] using this
+
+set_option hygiene false in
+macro "put_new_tac" : tactic => `(tactic|
+  (simp only [Option.map_none, Option.map_some, absProp]
+   rw [← hnew]
+   cases hm : defineOwn o n ⟨.val v, ⟨.on, .on, .on⟩⟩ with
+   | none =>
+     cases strict with
+     | false => simp
+     | true => have := hd rfl; simp [devStrict, ho, hcp, hm] at this
+   | some o' => simp [absHeap_set]))
+
+/-- **[[Put]] refines §8.12.5** (own data / own accessor / inherited data / inherited accessor /
+    absent, extensible or not): same heap, same setter call, same outcome outside `strict_ignored` -/
+theorem put_refines (h : MHeap) (strict : Bool) (a : Addr) (n : Name) (v : Val) (hi : Inv h)
+    (hdev : devStrict h (.put strict a n v) = false) : StepRefines h (.put strict a n v) := by
+  obtain ⟨hwf, hpo⟩ := hi
+  simp only [StepRefines, step, put, Spec.step, Spec.put, absHeap_get]
+  cases ho : h[a]? with
+  | none => simp
+  | some o =>
+    have hd : strict = true → devStrict h (.put true a n v) = false := by
+      intro hs; subst hs; exact hdev
+    clear hdev
+    simp only [Option.map_some, canPut_refines, getProperty_refines, fuel_absHeap]
+    cases hl : alookup n o.props with
+    | some prop =>
+      rw [getProperty_own h hpo a o n prop ho hl]
+      obtain ⟨pval, ⟨w, e, c⟩⟩ := prop
+      cases pval with
+      | nil => exact (hwf a o ho _ (alookup_mem hl)).elim
+      | val pv =>
+        have hcp : canPutDetails h o n = (tb w, some ⟨.val pv, ⟨w, e, c⟩⟩, none) := by
+          simp [canPutDetails, hl]
+        rw [hcp]
+        have hown : alookup n (absObj o).props = some (.data pv (tb w) (tb e) (tb c)) := by
+          simp [absObj, alookup_absProps, hl, absProp]
+        rw [hown]
+        cases w with
+        | on =>
+          simp only [tb, Bool.not_true, Bool.false_eq_true, if_false]
+          have hr := defineOwn_lift o n ⟨.val v, ⟨.on, e, c⟩⟩ { noPD with value := some v } _ hl (putOwn_prop pv v e c)
+          rw [← hr]
+          cases hm : defineOwn o n ⟨.val v, ⟨.on, e, c⟩⟩ with
+          | none =>
+            cases strict with
+            | false => simp
+            | true => have := hd rfl; simp [devStrict, ho, hcp, tb, hm] at this
+          | some o' => simp [absHeap_set]
+        | off => cases strict with
+          | false => simp [tb]
+          | true => have := hd rfl; simp [devStrict, ho, hcp, tb] at this
+        | unset => cases strict with
+          | false => simp [tb]
+          | true => have := hd rfl; simp [devStrict, ho, hcp, tb] at this
+      | gs g s =>
+        have hcp : canPutDetails h o n = ((slotFn s).isSome, some ⟨.gs g s, ⟨w, e, c⟩⟩, slotFn s) := by
+          simp [canPutDetails, hl]
+        rw [hcp]
+        have hown : alookup n (absObj o).props = some (.acc (slotFn g) (slotFn s) (tb e) (tb c)) := by
+          simp [absObj, alookup_absProps, hl, absProp]
+        rw [hown]
+        cases hs : slotFn s with
+        | none => cases strict with
+          | false => simp
+          | true => have := hd rfl; simp [devStrict, ho, hcp, hs] at this
+        | some k => simp [absProp, hs]
+    | none =>
+      have hown : alookup n (absObj o).props = none := by simp [absObj, alookup_absProps, hl]
+      rw [hown, getProperty_inherit h hpo a o n ho hl]
+      have hnew := putNew_refines o n v (hwf a o ho) hl
+      cases hpr : o.proto with
+      | none =>
+        have hcp : canPutDetails h o n = (o.ext, none, none) := by simp [canPutDetails, hl, hpr]
+        cases he : o.ext with
+        | false =>
+          rw [he] at hcp; rw [hcp]
+          cases strict with
+          | false => simp
+          | true => have := hd rfl; simp [devStrict, ho, hcp] at this
+        | true =>
+          rw [he] at hcp; rw [hcp]
+          put_new_tac
+      | some pa =>
+        simp only []
+        cases hin : getProperty h (fuel h) (some pa) n with
+        | none =>
+          have hcp : canPutDetails h o n = (o.ext, none, none) := by simp [canPutDetails, hl, hpr, hin]
+          cases he : o.ext with
+          | false =>
+            rw [he] at hcp; rw [hcp]
+            cases strict with
+            | false => simp
+            | true => have := hd rfl; simp [devStrict, ho, hcp] at this
+          | true =>
+            rw [he] at hcp; rw [hcp]
+            put_new_tac
+        | some ip =>
+          obtain ⟨ival, ⟨w, e, c⟩⟩ := ip
+          cases ival with
+          | gs g s =>
+            have hcp : canPutDetails h o n = ((slotFn s).isSome, some ⟨.gs g s, ⟨w, e, c⟩⟩, slotFn s) := by
+              simp [canPutDetails, hl, hpr, hin]
+            rw [hcp]
+            cases hs : slotFn s with
+            | none => cases strict with
+              | false => simp
+              | true => have := hd rfl; simp [devStrict, ho, hcp, hs] at this
+            | some k => simp [absProp, hs]
+          | val iv =>
+            have hcp : canPutDetails h o n = (if !o.ext then (false, none, none) else (tb w, none, none)) := by
+              simp [canPutDetails, hl, hpr, hin]
+            cases he : o.ext with
+            | false =>
+              simp only [he, Bool.not_false, if_true] at hcp; rw [hcp]
+              cases strict with
+              | false => simp
+              | true => have := hd rfl; simp [devStrict, ho, hcp] at this
+            | true =>
+              simp only [he, Bool.not_true, Bool.false_eq_true, if_false] at hcp
+              cases w with
+              | on => simp only [tb] at hcp; rw [hcp]; (simp only [absProp]; put_new_tac)
+              | off =>
+                simp only [tb] at hcp; rw [hcp]
+                cases strict with
+                | false => simp
+                | true => have := hd rfl; simp [devStrict, ho, hcp] at this
+              | unset =>
+                simp only [tb] at hcp; rw [hcp]
+                cases strict with
+                | false => simp
+                | true => have := hd rfl; simp [devStrict, ho, hcp] at this
+          | nil =>
+            have hcp : canPutDetails h o n = (if !o.ext then (false, none, none) else (tb w, none, none)) := by
+              simp [canPutDetails, hl, hpr, hin]
+            cases he : o.ext with
+            | false =>
+              simp only [he, Bool.not_false, if_true] at hcp; rw [hcp]
+              cases strict with
+              | false => simp
+              | true => have := hd rfl; simp [devStrict, ho, hcp] at this
+            | true =>
+              simp only [he, Bool.not_true, Bool.false_eq_true, if_false] at hcp
+              cases w with
+              | on => simp only [tb] at hcp; rw [hcp]; (simp only [absProp]; put_new_tac)
+              | off =>
+                simp only [tb] at hcp; rw [hcp]
+                cases strict with
+                | false => simp
+                | true => have := hd rfl; simp [devStrict, ho, hcp] at this
+              | unset =>
+                simp only [tb] at hcp; rw [hcp]
+                cases strict with
+                | false => simp
+                | true => have := hd rfl; simp [devStrict, ho, hcp] at this
+
+theorem devAccToDataAt_val (o : MObj) (n : Name) (v : Val) (m : Mode) : devAccToDataAt o n ⟨.val v, m⟩ = false := by
+  simp only [devAccToDataAt]
+  cases alookup n o.props <;> simp
+
+/-- a successful define on object `a` keeps the heap invariants -/
+theorem inv_define (h : MHeap) (a : Nat) (o o' : MObj) (n : Name) (d : MProp) (hi : Inv h) (ho : h[a]? = some o)
+    (hd : WFDesc d) (h2 : devAccToDataAt o n d = false) (hm : defineOwn o n d = some o') : Inv (h.set a o') :=
+  inv_set h a o o' hi ho (defineOwn_wf o o' n d (hi.1 a o ho) hd h2 hm) (defineOwn_shape o o' n d hm).1
+
+theorem put_inv (h : MHeap) (strict : Bool) (a : Addr) (n : Name) (v : Val) (hi : Inv h) :
+    Inv (step h (.put strict a n v)).1 := by
+  simp only [step, put]
+  cases ho : h[a]? with
+  | none => exact hi
+  | some o =>
+    simp only []
+    split
+    · exact hi
+    · exact hi
+    · rename_i prop _
+      cases hm : defineOwn o n { prop with value := .val v } with
+      | none => exact hi
+      | some o' => exact inv_define h a o o' n ⟨.val v, prop.mode⟩ hi ho (by simp [WFDesc]) (devAccToDataAt_val o n v _) hm
+    · cases hm : defineOwn o n ⟨.val v, ⟨.on, .on, .on⟩⟩ with
+      | none => exact hi
+      | some o' => exact inv_define h a o o' n ⟨.val v, ⟨.on, .on, .on⟩⟩ hi ho (by simp [WFDesc]) (devAccToDataAt_val o n v _) hm
+
 /-! ## Non-vacuity of the hypotheses -/
 
 /-- a heap with a data and an accessor property … -/
@@ -415,13 +853,11 @@ example : WFHeap hNV := by
   | zero =>
     simp [hNV] at h
     subst h
-    intro n p hp
-    simp only [alookup] at hp
-    split at hp
-    · cases hp; trivial
-    · split at hp
-      · cases hp; exact ⟨by decide, by decide, rfl⟩
-      · cases hp
+    intro kp hkp
+    simp only [List.mem_cons, List.not_mem_nil, or_false] at hkp
+    rcases hkp with h | h
+    · subst h; trivial
+    · subst h; exact ⟨by decide, by decide, rfl⟩
   | succ a => simp [hNV] at h
 
 /-- and a defineProperty step on it lies outside every region: the hypotheses of
